@@ -1336,13 +1336,22 @@ impl MdkStorageProvider for MdkSqliteStorage {
         #[cfg(feature = "verif-hooks")]
         crate::verif::tick("prune:start");
         let conn = self.connection.lock().unwrap();
-        let deleted = conn
-            .execute(
-                "DELETE FROM group_state_snapshots WHERE created_at < ?",
+        // The contract is "number of snapshots deleted" (as the memory backend reports), not
+        // the number of rows: one snapshot consists of many rows.
+        let snapshots: i64 = conn
+            .query_row(
+                "SELECT COUNT(*) FROM (SELECT DISTINCT snapshot_name, group_id
+                 FROM group_state_snapshots WHERE created_at < ?)",
                 rusqlite::params![min_timestamp as i64],
+                |row| row.get(0),
             )
             .map_err(|e| MdkStorageError::Database(e.to_string()))?;
-        Ok(deleted)
+        conn.execute(
+            "DELETE FROM group_state_snapshots WHERE created_at < ?",
+            rusqlite::params![min_timestamp as i64],
+        )
+        .map_err(|e| MdkStorageError::Database(e.to_string()))?;
+        Ok(snapshots as usize)
     }
 }
 
